@@ -46,7 +46,8 @@ theorem findIntergenic_complete (start «end» minLen pad : Int) (genes : List G
     (h1 : start ≤ a) (h2 : a < b) (h3 : b ≤ «end») (hlen : minLen ≤ b - a)
     (hb : ∀ g ∈ genes, Beside g pad a b) :
     ∃ area ∈ findIntergenic start «end» genes minLen pad, area.1 ≤ a ∧ b ≤ area.2 := by
-  obtain ⟨area, hm, hc⟩ := intergenicLoop_complete start «end» pad a b h1 h2 h3 genes start h1 hb
+  obtain ⟨area, hm, hc⟩ := intergenicLoop_complete start «end» pad a b h1 h2 h3 (sortGenes genes) start h1
+    (fun g hg => hb g ((mem_sortGenes genes g).1 hg))
   refine ⟨area, ?_, hc⟩
   unfold findIntergenic
   rw [List.mem_filter]
@@ -67,12 +68,12 @@ theorem beside_of_clear (g : Gene) (pad a b : Int) (hab : a < b) (hlong : g.star
 
 /-- every maximal gap that does not straddle an empty core is returned as it is -/
 theorem findIntergenic_gap_mem (start «end» minLen pad : Int) (genes : List Gene) (hpad : 0 ≤ pad)
-    (hsorted : sortedByStart genes) (a b : Int) (hgap : IsGap start «end» genes pad a b)
+    (a b : Int) (hgap : IsGap start «end» genes pad a b)
     (hb : ∀ g ∈ genes, Beside g pad a b) (hlen : minLen ≤ b - a) :
     (a, b) ∈ findIntergenic start «end» genes minLen pad := by
   obtain ⟨area, hm, hc1, hc2⟩ :=
     findIntergenic_complete start «end» minLen pad genes a b hgap.lo hgap.ne hgap.hi hlen hb
-  obtain ⟨s1, s2, _, s4⟩ := findIntergenic_sound start «end» minLen pad genes hpad hsorted area hm
+  obtain ⟨s1, s2, _, s4⟩ := findIntergenic_sound start «end» minLen pad genes hpad area hm
   have e1 : area.1 = a := by
     by_cases h : area.1 = a
     · exact h
@@ -145,20 +146,27 @@ theorem intergenicLoop_maximal (start «end» pad : Int) :
 
 /-- the gap search returns exactly the maximal gaps of sufficient length -/
 theorem findIntergenic_iff_gap (start «end» minLen pad : Int) (genes : List Gene) (hpad : 0 ≤ pad)
-    (hmin : 0 < minLen) (hsorted : sortedByStart genes)
+    (hmin : 0 < minLen)
     (hlong : ∀ g ∈ genes, g.start + pad < g.end - pad) (a b : Int) :
     (a, b) ∈ findIntergenic start «end» genes minLen pad ↔
       IsGap start «end» genes pad a b ∧ minLen ≤ b - a := by
   constructor
   · intro hm
-    obtain ⟨s1, s2, s3, s4⟩ := findIntergenic_sound start «end» minLen pad genes hpad hsorted (a, b) hm
+    obtain ⟨s1, s2, s3, s4⟩ := findIntergenic_sound start «end» minLen pad genes hpad (a, b) hm
     simp only at s1 s2 s3 s4
-    have hloop : (a, b) ∈ intergenicLoop start «end» pad genes start := by
+    have hloop : (a, b) ∈ intergenicLoop start «end» pad (sortGenes genes) start := by
       unfold findIntergenic at hm; exact (List.mem_filter.1 hm).1
-    obtain ⟨m1, m2⟩ := intergenicLoop_maximal start «end» pad genes start (Int.le_refl _) hlong (a, b) hloop
-    exact ⟨⟨s1, by omega, s2, s4, m1, m2⟩, s3⟩
+    obtain ⟨m1, m2⟩ := intergenicLoop_maximal start «end» pad (sortGenes genes) start (Int.le_refl _)
+      (fun g hg => hlong g ((mem_sortGenes genes g).1 hg)) (a, b) hloop
+    refine ⟨⟨s1, by omega, s2, s4, ?_, ?_⟩, s3⟩
+    · rcases m1 with m1 | ⟨g, hg, hc⟩
+      · exact Or.inl m1
+      · exact Or.inr ⟨g, (mem_sortGenes genes g).1 hg, hc⟩
+    · rcases m2 with m2 | ⟨g, hg, hc⟩
+      · exact Or.inl m2
+      · exact Or.inr ⟨g, (mem_sortGenes genes g).1 hg, hc⟩
   · rintro ⟨hgap, hlen⟩
-    exact findIntergenic_gap_mem start «end» minLen pad genes hpad hsorted a b hgap
+    exact findIntergenic_gap_mem start «end» minLen pad genes hpad a b hgap
       (fun g hg => beside_of_clear g pad a b hgap.ne (hlong g hg) (hgap.clear g hg)) hlen
 
 end ASV.Orf
